@@ -30,7 +30,7 @@ From HV Require Import lib.Harness model.Validity model.Builder spec.BuilderS pr
   proofs.BuilderAcyclicP proofs.BuilderNonLocalP proofs.BuilderInputsP proofs.BuilderLinearP proofs.BuilderCopyP
   model.Builder2 proofs.Builder2EmbP spec.Builder2WFS proofs.Builder2P proofs.Builder2FrameP proofs.Builder2RulesP proofs.Builder2TypeP proofs.Builder2NonLocalP
   spec.Builder2LiveS proofs.Builder2AcyclicP proofs.Builder2LinearP proofs.Builder2ValidP
-  model.Builder3 proofs.Builder3EmbP proofs.Builder3IndexP spec.Builder3S proofs.Builder3TagsP.
+  model.Builder3 proofs.Builder3EmbP proofs.Builder3IndexP spec.Builder3S proofs.Builder3TagsP proofs.Builder3FirstSecondP.
 
 (* ---- tie of the validity predicate's tables to the Rust sources (regenerated data: gen/RustTables.v) ---- *)
 From HV Require Import gen.RustTables proofs.RustTablesP proofs.RustSigP.
@@ -592,3 +592,20 @@ Theorem C01_builder3_child_tags_refuted :
   (croot3 ex10_prog = false /\ exists g, run3 [] [] ex10_prog = Ok g /\ r_child_tags g = false).
 Proof. exact (conj ex9_croot3 (conj ex_croot3_refuted ex10_module_refuted)). Qed.
 Print Assumptions C01_builder3_child_tags_refuted.
+
+(* Rule 2 (first / second child) for EVERY program of the third language, with NO premise: in the serialised document
+   every dataflow container (DFG, Case, TailLoop, FuncDefn, DataflowBlock) has its Input and Output nodes as first and
+   second child and no other Input / Output child, every CFG has its entry block first, its exit block second and no
+   other exit block, every Conditional has a Case.  A child that is neither Input, Output nor exit block can be appended
+   under any node whose check holds; a fresh container is exempt from its add_node call until its second child is there,
+   and those moments lie inside one builder call each (init_io; Cfg._init_impl, where the CFG and its entry block are
+   exempt at once; Conditional._init_impl); completion steps keep all child lists.  The same for the nested documents of
+   function-valued constants. *)
+Theorem C01_builder3_first_second : forall tys sigs p g,
+  run3 tys sigs p = Ok g -> r_first_second g = true.
+Proof. exact run3_first_second. Qed.
+Print Assumptions C01_builder3_first_second.
+Theorem C01_builder3_first_second_subs : forall tys sigs p subs g gs, run3s tys sigs p subs = Ok (g, gs) ->
+  r_first_second g = true /\ forall x, In x gs -> r_first_second x = true.
+Proof. exact run3s_first_second. Qed.
+Print Assumptions C01_builder3_first_second_subs.
